@@ -854,6 +854,43 @@ theorem vChoice_ok (prim : String) (k : Nat) (hk : primBytes prim = some k) (hk1
   rw [this]
   by_cases h : c.index < 8 * k <;> simp [h]
 
+theorem repeats_cons_nil {α} (key : α → String) (seen : List String) (x : α) (xs : List α) :
+    repeats key seen (x :: xs) = [] ↔ key x ∉ seen ∧ repeats key (key x :: seen) xs = [] := by
+  by_cases hm : key x ∈ seen
+  · simp [repeats, hm]
+  · simp [repeats, hm]
+
+theorem repeatsNat_cons_nil {α} (key : α → Nat) (seen : List Nat) (x : α) (xs : List α) :
+    repeatsNat key seen (x :: xs) = [] ↔ key x ∉ seen ∧ repeatsNat key (key x :: seen) xs = [] := by
+  by_cases hm : key x ∈ seen
+  · simp [repeatsNat, hm]
+  · simp [repeatsNat, hm]
+
+theorem not_contains {α} [BEq α] [LawfulBEq α] (l : List α) (x : α) (h : x ∉ l) : (!l.contains x) = true := by
+  simpa using h
+
+theorem normalized_eq (prim : String) (v : ValidValue) : normalizedEnumValue prim v = enumValueKey prim v := by
+  unfold normalizedEnumValue enumValueKey stripLeadingZeros canonInt
+  rfl
+
+theorem vValidValues_ok (hfp : FpAgree) (prim : String) (hi : isIntegralPrim prim = true) (p : Path) :
+    ∀ (vs : List ValidValue) (seen : List String) (u : Unit),
+      vValidValues prim p seen vs = .ok u ↔
+        (∀ v ∈ vs, symbolicName v.name = true ∧ validValueViol prim p v = none) ∧
+        repeats (enumValueKey prim) seen vs = [] := by
+  intro vs
+  induction vs with
+  | nil => intro seen u; simp [vValidValues, repeats]
+  | cons v rest ih =>
+    intro seen u
+    simp only [vValidValues, bind_ok, vValidValue_ok hfp prim hi p, need_ok, exists_const, ih, normalized_eq,
+      repeats_cons_nil, List.mem_cons, forall_eq_or_imp]
+    constructor
+    · rintro ⟨h1, h2, h3, h4⟩
+      exact ⟨⟨h1, h3⟩, by simpa using h2, h4⟩
+    · rintro ⟨⟨h1, h3⟩, h2, h4⟩
+      exact ⟨h1, not_contains _ _ h2, h3, h4⟩
+
 theorem vEnum_ok (hfp : FpAgree) (types : List Elem) (p : Path) (n enc : String) (o : Option Nat)
     (vs : List ValidValue) (a : Attrs) (sz : Nat) :
     vEnum types p n enc vs = .ok sz ↔
@@ -870,12 +907,13 @@ theorem vEnum_ok (hfp : FpAgree) (types : List Elem) (p : Path) (n enc : String)
     by_cases hi : isIntegralPrim prim = true
     · obtain ⟨k, hk⟩ := integral_size prim hi
       simp only [hi, true_and, Bool.not_true, Bool.false_eq_true, ↓reduceIte, List.filterMap_eq_nil_iff, hk,
-        Option.getD_some, Option.some.injEq, allOk_ok, vValidValue_ok hfp prim hi p, exists_const]
+        Option.getD_some, Option.some.injEq, vValidValues_ok hfp prim hi p, exists_const, List.append_eq_nil_iff,
+        List.map_eq_nil_iff]
       constructor
-      · rintro ⟨h1, h2, h3⟩
-        exact ⟨h1, fun v hv => (h2 v hv).1, fun v hv => (h2 v hv).2, h3⟩
-      · rintro ⟨h1, h2, h3, h4⟩
-        exact ⟨h1, fun v hv => ⟨h2 v hv, h3 v hv⟩, h4⟩
+      · rintro ⟨h1, ⟨h2, hr⟩, h3⟩
+        exact ⟨h1, fun v hv => (h2 v hv).1, ⟨fun v hv => (h2 v hv).2, hr⟩, h3⟩
+      · rintro ⟨h1, h2, ⟨h3, hr⟩, h4⟩
+        exact ⟨h1, ⟨fun v hv => ⟨h2 v hv, h3 v hv⟩, hr⟩, h4⟩
     · simp [hi]
 
 theorem vSet_ok (types : List Elem) (p : Path) (n enc : String) (o : Option Nat)
@@ -1387,9 +1425,12 @@ theorem vLevelHeaderElement_ok (types : List Elem) (hp : Path) (elems : List Ele
   | error v => simp [fail, bind, Except.bind]
   | ok x =>
     obtain ⟨t, ep⟩ := x
-    simp only [bind_ok, Except.ok.injEq, exists_eq_left', need_ok, exists_const, Bool.false_eq_true, ↓reduceIte]
+    simp only [bind_ok, Except.ok.injEq, exists_eq_left', need_ok, exists_const, Bool.false_eq_true, ↓reduceIte,
+      isIntegral_eq]
     by_cases h1 : t.length = 1
-    · by_cases h2 : t.presence = Presence.constant <;> simp [h1, h2]
+    · by_cases h2 : t.presence = Presence.constant
+      · simp [h1, h2]
+      · cases h3 : isIntegralPrim t.prim <;> simp [h1, h2, h3]
     · simp [h1]
 
 theorem vLevelHeader_ok (types : List Elem) (user : Path) (hdr : String) (required : List String) (u : Unit) :
@@ -1401,8 +1442,23 @@ theorem vLevelHeader_ok (types : List Elem) (user : Path) (hdr : String) (requir
   | some e =>
     cases e with
     | composite n o elems a =>
-      simp only [allOk_ok, vLevelHeaderElement_ok, Bool.false_eq_true, ↓reduceIte, List.append_nil,
-        List.flatMap_eq_nil_iff]
+      simp only [bind_ok, exists_const, allOk_ok, vLevelHeaderElement_ok, Bool.false_eq_true, ↓reduceIte,
+        List.append_eq_nil_iff, List.flatMap_eq_nil_iff, optionalCounters]
+      constructor
+      · rintro ⟨h1, h2⟩
+        refine ⟨h1, ?_⟩
+        intro r hr
+        have := h2 r hr
+        split
+        · rename_i hp; simpa [hp, vLevelHeaderElement_ok] using this
+        · rfl
+      · rintro ⟨h1, h2⟩
+        refine ⟨h1, ?_⟩
+        intro r hr
+        have := h2 r hr
+        split
+        · rename_i hp; simpa [hp, vLevelHeaderElement_ok] using this
+        · rfl
     | _ => simp [fail]
 
 /-! ### what `validate_types` leaves behind, and the layout of `<data>` headers -/
@@ -1880,35 +1936,132 @@ theorem vDatas_ok (types : List Elem) (hsz : SizesAgree types) (lp : Path) :
     · exact ⟨h1, h2⟩
     · exact ih u h3 d' hd'
 
-theorem blockLength_ok (types : List Elem) (lp : Path) (bl : Option Nat) (fields : List FieldDef) (off : Nat)
-    (hend : fieldsEnd types 0 fields = some off) (u : Unit)
-    (h : (match Schema.blockLength bl off with
-          | .error _ => (fail .blockLengthTooSmall lp : R Unit)
-          | .ok _ => .ok ()) = .ok u) : blockLengthViols types lp bl fields = [] := by
-  unfold blockLengthViols
-  rw [hend]
-  unfold Schema.blockLength at h
-  cases bl with
-  | none => rfl
-  | some b =>
-    simp only at h ⊢
-    by_cases hlt : b < off
-    · simp [hlt, fail] at h
-    · simp [hlt]
+theorem valueFits_all (hfp : FpAgree) (prim v : String) : valueFitsIntoType v prim = representable prim v := by
+  by_cases hp : isPrim prim = true
+  · exact valueFits_eq hfp prim v hp
+  · unfold valueFitsIntoType representable
+    have hf : prim ≠ "float" := by intro h; subst h; exact hp (by decide)
+    have hd : prim ≠ "double" := by intro h; subst h; exact hp (by decide)
+    have hi : intTy prim = none := by
+      unfold isPrim primBytes at hp
+      unfold intTy
+      split <;> simp_all
+    have hr : intRange prim = none := by
+      unfold isPrim primBytes at hp
+      unfold intRange
+      split <;> simp_all
+    simp [hi, hf, hd, intRepresentable, hr]
 
-theorem level_good (types : List Elem) (lp : Path) (bl : Option Nat) (fields : List FieldDef) (groups : List GroupDef)
-    (datas : List DataDef) (off : Nat)
+/-- member `name` of the header composite `hdr`, if it exists, is a `<type>` or a `<ref>` to one -/
+def HdrResolves (types : List Elem) (hdr name : String) : Prop :=
+  ∀ n o elems a, findType types hdr = some (.composite n o elems a) →
+    (elems.find? (fun e => e.name == name)).isSome = true →
+    ∃ t ep, headerMemberType types ["types", n] elems name = .ok (t, ep)
+
+theorem headerMemberViols_resolves (types : List Elem) (hp : Path) (elems : List Elem) (name : String) (vd : Bool)
+    (h : headerMemberViols types hp elems name vd = []) : ∃ t ep, headerMemberType types hp elems name = .ok (t, ep) := by
+  unfold headerMemberViols at h
+  cases hm : headerMemberType types hp elems name with
+  | error v => simp [hm] at h
+  | ok x => exact ⟨x.1, x.2, rfl⟩
+
+theorem hdrResolves_of_valid (types : List Elem) (user : Path) (hdr : String) (required : List String)
+    (h : headerViols types user hdr required false = []) (name : String)
+    (hn : name ∈ required ∨ name ∈ optionalCounters) : HdrResolves types hdr name := by
+  intro n o elems a hf hpres
+  unfold headerViols at h
+  simp only [hf, Bool.false_eq_true, ↓reduceIte, List.append_eq_nil_iff, List.flatMap_eq_nil_iff] at h
+  rcases hn with hn | hn
+  · exact headerMemberViols_resolves types _ elems name false (h.1 name hn)
+  · have := h.2 name hn
+    simp only [hpres, ↓reduceIte] at this
+    exact headerMemberViols_resolves types _ elems name false this
+
+theorem vHeaderValue_ok (hfp : FpAgree) (types : List Elem) (hdr name : String) (value : Nat) (loc : Path) (u : Unit)
+    (hres : HdrResolves types hdr name) :
+    vHeaderValue types hdr name value loc = .ok u ↔ headerValueViols types hdr name value loc = [] := by
+  unfold vHeaderValue headerValueViols
+  rw [lookup_eq]
+  cases hf : findType types hdr with
+  | none => simp
+  | some e =>
+    cases e with
+    | composite n o elems a =>
+      simp only
+      by_cases hpres : (elems.find? (fun e => e.name == name)).isNone = true
+      · simp only [hpres, ↓reduceIte, true_iff]
+        have : headerMemberType types ["types", n] elems name = .error (.headerMissingElement, ["types", n]) := by
+          unfold headerMemberType
+          rw [Option.isNone_iff_eq_none.mp hpres]
+        simp [this]
+      · simp only [hpres, Bool.false_eq_true, ↓reduceIte]
+        obtain ⟨t, ep, hm⟩ := hres n o elems a hf (by
+          cases hx : elems.find? (fun e => e.name == name) with
+          | none => simp [hx] at hpres
+          | some _ => rfl)
+        rw [levelHeaderElement_eq, hm]
+        simp only [bind_ok, Except.ok.injEq, exists_eq_left', need_ok, valueFits_all hfp]
+        cases representable t.prim (toString value) <;> simp
+    | _ => simp
+
+/-- what `validate_block_length` and the counter checks establish -/
+def levelValueViols (types : List Elem) (hdr : String) (p : Path) (bl : Option Nat) (fields : List FieldDef)
+    (ng nd : Nat) : List Viol :=
+  blockLengthViols types p bl fields ++
+  (match fieldsEnd types 0 fields with
+   | some e => headerValueViols types hdr "blockLength" (bl.getD e) p
+   | none => []) ++
+  headerValueViols types hdr "numGroups" ng p ++
+  headerValueViols types hdr "numVarDataFields" nd p
+
+/-- the members a level writes into its header resolve -/
+def HdrValid (types : List Elem) (hdr : String) : Prop :=
+  HdrResolves types hdr "blockLength" ∧ HdrResolves types hdr "numGroups" ∧ HdrResolves types hdr "numVarDataFields"
+
+theorem vLevelValues_ok (hfp : FpAgree) (types : List Elem) (hdr : String) (hv : HdrValid types hdr) (p : Path)
+    (bl : Option Nat) (fields : List FieldDef) (off ng nd : Nat) (hend : fieldsEnd types 0 fields = some off) (u : Unit) :
+    vLevelValues types hdr p bl off ng nd = .ok u ↔ levelValueViols types hdr p bl fields ng nd = [] := by
+  unfold vLevelValues levelValueViols blockLengthViols Schema.blockLength
+  rw [hend]
+  obtain ⟨r1, r2, r3⟩ := hv
+  cases bl with
+  | none =>
+    simp only [bind_ok, exists_const, vHeaderValue_ok hfp types hdr _ _ _ _ r1, vHeaderValue_ok hfp types hdr _ _ _ _ r2,
+      vHeaderValue_ok hfp types hdr _ _ _ _ r3, Option.getD_none, List.nil_append, List.append_eq_nil_iff]
+    constructor
+    · rintro ⟨h1, h2, h3⟩; exact ⟨⟨h1, h2⟩, h3⟩
+    · rintro ⟨⟨h1, h2⟩, h3⟩; exact ⟨h1, h2, h3⟩
+  | some b =>
+    by_cases hlt : b < off
+    · simp [hlt, fail]
+    · simp only [hlt, ↓reduceIte, bind_ok, exists_const, vHeaderValue_ok hfp types hdr _ _ _ _ r1,
+        vHeaderValue_ok hfp types hdr _ _ _ _ r2, vHeaderValue_ok hfp types hdr _ _ _ _ r3, Option.getD_some,
+        List.nil_append, List.append_eq_nil_iff]
+      constructor
+      · rintro ⟨h1, h2, h3⟩; exact ⟨⟨h1, h2⟩, h3⟩
+      · rintro ⟨⟨h1, h2⟩, h3⟩; exact ⟨h1, h2, h3⟩
+
+theorem hdrValid_of_valid (types : List Elem) (user : Path) (hdr : String) (required : List String)
+    (hb : "blockLength" ∈ required) (h : headerViols types user hdr required false = []) : HdrValid types hdr :=
+  ⟨hdrResolves_of_valid types user hdr required h _ (Or.inl hb),
+   hdrResolves_of_valid types user hdr required h _ (Or.inr (by simp [optionalCounters])),
+   hdrResolves_of_valid types user hdr required h _ (Or.inr (by simp [optionalCounters]))⟩
+
+theorem level_good (types : List Elem) (hdr : String) (lp : Path) (bl : Option Nat) (fields : List FieldDef)
+    (groups : List GroupDef) (datas : List DataDef) (off : Nat)
     (hf : (∀ f ∈ fields, symbolicName f.name = true ∧ fieldViols types lp f = []) ∧
       (fieldMinima types 0 fields).filterMap (fieldOffsetViol lp) = [] ∧ fieldsEnd types 0 fields = some off)
-    (hb : blockLengthViols types lp bl fields = [])
+    (hb : levelValueViols types hdr lp bl fields groups.length datas.length = [])
     (hg : ∀ g ∈ groups, symbolicName (gName g) = true ∧
       headerViols types (lp ++ [gName g]) (gDim g) ["numInGroup", "blockLength"] false = [])
     (hd : ∀ d ∈ datas, symbolicName d.name = true ∧ headerViols types (lp ++ [d.name]) d.type ["length"] true = []) :
-    LevelGood types ⟨lp, bl, fields, groups, datas⟩ := by
+    LevelGood types ⟨lp, bl, fields, groups, datas, hdr⟩ := by
   refine ⟨fun f h => (hf.1 f h).1, fun g h => (hg g h).1, fun d h => (hd d h).1, ?_⟩
+  unfold levelValueViols at hb
   unfold levelViols
-  simp only [List.append_eq_nil_iff, List.flatMap_eq_nil_iff]
-  exact ⟨⟨⟨⟨fun f h => (hf.1 f h).2, hf.2.1⟩, hb⟩, fun g h => (hg g h).2⟩, fun d h => (hd d h).2⟩
+  simp only [List.append_eq_nil_iff, List.flatMap_eq_nil_iff] at hb ⊢
+  exact ⟨⟨⟨⟨⟨⟨⟨fun f h => (hf.1 f h).2, hf.2.1⟩, hb.1.1.1⟩, hb.1.1.2⟩, hb.1.2⟩, hb.2⟩, fun g h => (hg g h).2⟩,
+    fun d h => (hd d h).2⟩
 
 section Levels
 variable (hfp : FpAgree) (types : List Elem) (hsz : SizesAgree types)
@@ -1924,14 +2077,15 @@ mutual
       simp only [vGroup, bind_ok, vName_ok, vLevelHeader_ok, exists_const] at h
       obtain ⟨h1, h2, off, hoff, _, hbl, _, hgs, hds⟩ := h
       have hf := vFields_ok hfp types hsz (lp ++ [n]) fields 0 off hoff
-      have hb := blockLength_ok types (lp ++ [n]) bl fields off hf.2.2 _ hbl
+      have hv := hdrValid_of_valid types _ dim _ (by simp) h2
+      have hb := (vLevelValues_ok hfp types dim hv (lp ++ [n]) bl fields off _ _ hf.2.2 _).mp hbl
       obtain ⟨g1, g2⟩ := vGroups_ok (lp ++ [n]) groups _ hgs
       have hd := vDatas_ok types hsz (lp ++ [n]) datas _ hds
       refine ⟨⟨h1, h2⟩, ?_⟩
       intro l hl
       simp only [groupLevels, List.mem_cons] at hl
       rcases hl with rfl | hl
-      · exact level_good types _ bl fields groups datas off hf hb g1 hd
+      · exact level_good types dim _ bl fields groups datas off hf hb g1 hd
       · exact g2 l hl
   theorem vGroups_ok :
       ∀ (lp : Path) (gs : List GroupDef) (u : Unit), vGroups types lp gs = .ok u →
@@ -1956,37 +2110,46 @@ mutual
         · exact b2 l hl
 end
 
-theorem vMessage_ok (m : MessageDef) (u : Unit) (h : vMessage types m = .ok u) :
-    symbolicName m.name = true ∧ ∀ l ∈ messageLevels m, LevelGood types l := by
-  simp only [vMessage, bind_ok, vName_ok, exists_const] at h
-  obtain ⟨h1, off, hoff, _, hbl, _, hgs, hds⟩ := h
+theorem vMessage_ok (hdr : String) (hv : HdrValid types hdr) (ht : HdrResolves types hdr "templateId")
+    (m : MessageDef) (u : Unit) (h : vMessage types hdr m = .ok u) :
+    symbolicName m.name = true ∧ headerValueViols types hdr "templateId" m.id (msgPath m) = [] ∧
+    ∀ l ∈ messageLevels hdr m, LevelGood types l := by
+  simp only [vMessage, bind_ok, vName_ok, exists_const, vHeaderValue_ok hfp types hdr _ _ _ _ ht] at h
+  obtain ⟨h1, htid, off, hoff, _, hbl, _, hgs, hds⟩ := h
   have hf := vFields_ok hfp types hsz _ m.fields 0 off hoff
-  have hb := blockLength_ok types _ m.blockLength m.fields off hf.2.2 _ hbl
+  have hb := (vLevelValues_ok hfp types hdr hv _ m.blockLength m.fields off _ _ hf.2.2 _).mp hbl
   obtain ⟨g1, g2⟩ := vGroups_ok hfp types hsz _ m.groups _ hgs
   have hd := vDatas_ok types hsz _ m.datas _ hds
-  refine ⟨h1, ?_⟩
+  refine ⟨h1, htid, ?_⟩
   intro l hl
   simp only [messageLevels, List.mem_cons] at hl
   rcases hl with rfl | hl
-  · exact level_good types _ m.blockLength m.fields m.groups m.datas off hf hb g1 hd
+  · exact level_good types hdr _ m.blockLength m.fields m.groups m.datas off hf hb g1 hd
   · exact g2 l hl
 
 end Levels
 
-/-- after a successful `validate_messages`: the message header and every level of every message obey their rules -/
+/-- after a successful `validate_messages`: the message header, the values written into it and every level of every
+message obey their rules -/
 theorem messagesPhase_good (hfp : FpAgree) (s : SchemaDef) (hsz : SizesAgree s.types)
     (h : messagesPhase s = .ok ()) :
     headerViols s.types ["schema"] s.headerType ["schemaId", "templateId", "version", "blockLength"] false = [] ∧
+    headerValueViols s.types s.headerType "schemaId" s.id ["schema"] = [] ∧
+    headerValueViols s.types s.headerType "version" s.version ["schema"] = [] ∧
+    (∀ m ∈ s.messages, headerValueViols s.types s.headerType "templateId" m.id (msgPath m) = []) ∧
     (∀ m ∈ s.messages, symbolicName m.name = true) ∧ ∀ l ∈ allLevels s, LevelGood s.types l := by
   simp only [messagesPhase, bind_ok, vLevelHeader_ok, exists_const, allOk_ok] at h
-  obtain ⟨h1, h2⟩ := h
-  refine ⟨h1, fun m hm => (vMessage_ok hfp s.types hsz m _ (h2 m hm)).1, ?_⟩
+  obtain ⟨h1, _, hid, _, hver, h2⟩ := h
+  have hr := fun name hn => hdrResolves_of_valid s.types ["schema"] s.headerType _ h1 name (Or.inl hn)
+  have hv := hdrValid_of_valid s.types _ s.headerType _ (by simp) h1
+  rw [vHeaderValue_ok hfp _ _ _ _ _ _ (hr _ (by simp))] at hid hver
+  have hm := fun m hm => vMessage_ok hfp s.types hsz s.headerType hv (hr _ (by simp)) m _ (h2 m hm)
+  refine ⟨h1, hid, hver, fun m h => (hm m h).2.1, fun m h => (hm m h).1, ?_⟩
   intro l hl
   unfold allLevels at hl
   rw [List.mem_flatMap] at hl
-  obtain ⟨m, hm, hl⟩ := hl
-  exact (vMessage_ok hfp s.types hsz m _ (h2 m hm)).2 l hl
-
+  obtain ⟨m, hm', hl⟩ := hl
+  exact (hm m hm').2.2 l hl
 
 end Messages
 
@@ -2178,14 +2341,14 @@ theorem pDatas_ok (lp : Path) : ∀ (datas : List DataDef) (seen : List String) 
     · simp [dataAttrViols, h1, h2, h3, h4]
     · exact i3 d' hd'
 
-theorem level_parsed (lp : Path) (bl : Option Nat) (fields : List FieldDef) (groups : List GroupDef) (datas : List DataDef)
+theorem level_parsed (hdr : String) (lp : Path) (bl : Option Nat) (fields : List FieldDef) (groups : List GroupDef) (datas : List DataDef)
     (hbl : optU64 bl = true)
     (hf : repeats id [] (fields.map FieldDef.name) = [] ∧ ∀ f ∈ fields, fieldAttrViols lp f = [])
     (hg : repeats id ((fields.map FieldDef.name).reverse ++ []) (groups.map gName) = [] ∧
       ∀ g ∈ groups, groupAttrViols lp g = [])
     (hd : repeats id ((groups.map gName).reverse ++ ((fields.map FieldDef.name).reverse ++ [])) (datas.map DataDef.name) = [] ∧
       ∀ d ∈ datas, dataAttrViols lp d = []) :
-    LevelParsed ⟨lp, bl, fields, groups, datas⟩ := by
+    LevelParsed ⟨lp, bl, fields, groups, datas, hdr⟩ := by
   constructor
   · unfold attrViolsLevel
     simp only [hbl, Bool.not_true, Bool.false_eq_true, ↓reduceIte, List.nil_append, List.append_eq_nil_iff,
@@ -2215,7 +2378,7 @@ mutual
       intro l hl
       simp only [groupLevels, List.mem_cons] at hl
       rcases hl with rfl | hl
-      · exact level_parsed _ bl fields groups datas h3 ⟨f2, f3⟩ ⟨g2, g3⟩ ⟨d2, d3⟩
+      · exact level_parsed dim _ bl fields groups datas h3 ⟨f2, f3⟩ ⟨g2, g3⟩ ⟨d2, d3⟩
       · exact g4 l hl
   theorem pGroups_ok : ∀ (gs : List GroupDef) (lp : Path) (seen seen' : List String), pGroups lp seen gs = .ok seen' →
       seen' = (gs.map gName).reverse ++ seen ∧ repeats id seen (gs.map gName) = [] ∧
@@ -2242,10 +2405,10 @@ mutual
         · exact b4 l hl
 end
 
-theorem pMessages_ok : ∀ (ms : List MessageDef) (names : List String) (ids : List Nat) (u : Unit),
+theorem pMessages_ok (hdr : String) : ∀ (ms : List MessageDef) (names : List String) (ids : List Nat) (u : Unit),
     pMessages names ids ms = .ok u →
       repeats MessageDef.name names ms = [] ∧ repeatsNat MessageDef.id ids ms = [] ∧
-      ∀ m ∈ ms, msgAttrViols m = [] ∧ ∀ l ∈ messageLevels m, LevelParsed l := by
+      ∀ m ∈ ms, msgAttrViols m = [] ∧ ∀ l ∈ messageLevels hdr m, LevelParsed l := by
   intro ms
   induction ms with
   | nil => intro names ids u _; simp [repeats, repeatsNat]
@@ -2269,7 +2432,7 @@ theorem pMessages_ok : ∀ (ms : List MessageDef) (names : List String) (ids : L
       intro l hl
       simp only [messageLevels, List.mem_cons] at hl
       rcases hl with rfl | hl
-      · exact level_parsed _ m'.blockLength m'.fields m'.groups m'.datas h3 ⟨f2, f3⟩ ⟨g2, g3⟩ ⟨d2, d3⟩
+      · exact level_parsed hdr _ m'.blockLength m'.fields m'.groups m'.datas h3 ⟨f2, f3⟩ ⟨g2, g3⟩ ⟨d2, d3⟩
       · exact g4 l hl
     · exact i3 m' hm'
 
@@ -2293,7 +2456,7 @@ theorem parsePhase_good (s : SchemaDef) (h : parsePhase s = .ok ()) :
   obtain ⟨h1, h2, _, ht, hm⟩ := h
   obtain ⟨t1, _, t3⟩ := pTypes_ok _ _ _ ht
   have t4 := pTypes_repeats _ _ _ ht
-  obtain ⟨m1, m2, m3⟩ := pMessages_ok _ _ _ _ hm
+  obtain ⟨m1, m2, m3⟩ := pMessages_ok s.headerType _ _ _ _ hm
   have helems : ∀ q x, (q, x) ∈ allElems s → ParsedOk q x := by
     intro q x hx
     unfold allElems at hx
@@ -2417,8 +2580,8 @@ mutual
         · exact b2 l hl
 end
 
-theorem cMessage_ok (m : MessageDef) (u : Unit) (h : cMessage m = .ok u) :
-    isKeyword m.name = false ∧ ∀ l ∈ messageLevels m, LevelNotKw l := by
+theorem cMessage_ok (hdr : String) (m : MessageDef) (u : Unit) (h : cMessage m = .ok u) :
+    isKeyword m.name = false ∧ ∀ l ∈ messageLevels hdr m, LevelNotKw l := by
   simp only [cMessage, bind_ok, cName_ok, exists_const, allOk_ok] at h
   obtain ⟨h1, h2, _, h3, h4⟩ := h
   obtain ⟨g1, g2⟩ := cGroups_ok m.groups _ _ h3
@@ -2435,7 +2598,7 @@ theorem cppPhase_good (s : SchemaDef) (h : cppPhase s = .ok ()) :
     (∀ m ∈ s.messages, isKeyword m.name = false) ∧ ∀ l ∈ allLevels s, LevelNotKw l := by
   simp only [cppPhase, bind_ok, need_ok, exists_const, anyOrder_ok, firstErrors_nil, allOk_ok] at h
   obtain ⟨h1, h2, h3⟩ := h
-  refine ⟨?_, ?_, fun m hm => (cMessage_ok m _ (h3 m hm)).1, ?_⟩
+  refine ⟨?_, ?_, fun m hm => (cMessage_ok s.headerType m _ (h3 m hm)).1, ?_⟩
   · unfold validNamespace
     rw [symbolic_eq, keyword_eq] at h1
     unfold isReservedCppNamespace at h1
@@ -2451,7 +2614,7 @@ theorem cppPhase_good (s : SchemaDef) (h : cppPhase s = .ok ()) :
     unfold allLevels at hl
     rw [List.mem_flatMap] at hl
     obtain ⟨m, hm, hl⟩ := hl
-    exact (cMessage_ok m _ (h3 m hm)).2 l hl
+    exact (cMessage_ok s.headerType m _ (h3 m hm)).2 l hl
 
 
 /-! ### assembly: an accepted schema breaks no enforced rule -/
@@ -2510,12 +2673,13 @@ theorem check_ok_no_violation (hfp : FpAgree) (s : SchemaDef)
   obtain ⟨p1, p2, p3⟩ := parsePhase_good s hp
   obtain ⟨t1, t2⟩ := typesPhase_good hfp s ht
   have t3 := cycleViols_nil hfp s ht
-  obtain ⟨m1, m2, m3⟩ := messagesPhase_good hfp s (sizesAgree_of_phase hfp s ht) hm
+  obtain ⟨m1, mi, mv, mt, m2, m3⟩ := messagesPhase_good hfp s (sizesAgree_of_phase hfp s ht) hm
   obtain ⟨c1, c2, c3, c4⟩ := cppPhase_good s hc
   have n1 := nameViols_nil s t2 c2 m2 c3 m3 c4 c1
   unfold violations
-  simp only [p1, p2, n1, t3, m1, List.nil_append, List.append_nil, List.append_eq_nil_iff, List.flatMap_eq_nil_iff]
-  exact ⟨fun x hx => (t2 x.1 x.2 hx).2.2, fun l hl => (m3 l hl).2.2.2⟩
+  simp only [p1, p2, n1, t3, m1, mi, mv, List.nil_append, List.append_nil, List.append_eq_nil_iff,
+    List.flatMap_eq_nil_iff]
+  exact ⟨⟨fun x hx => (t2 x.1 x.2 hx).2.2, mt⟩, fun l hl => (m3 l hl).2.2.2⟩
 
 
 end Assembly
@@ -2579,13 +2743,26 @@ theorem vEncodingType_walk (c : DiagClass) (hc : WalkCls c) (types : List Elem) 
     NotCls c (vEncodingType types p enc) := by
   rcases hc with rfl | rfl <;> (unfold vEncodingType; notcls)
 
+theorem vValidValues_walk (c : DiagClass) (hc : WalkCls c) (prim : String) (p : Path) (vs : List ValidValue) :
+    ∀ seen, NotCls c (vValidValues prim p seen vs) := by
+  induction vs with
+  | nil => intro seen; exact notCls_ok c ()
+  | cons v rest ih =>
+    intro seen
+    have := ih (normalizedEnumValue prim v :: seen)
+    rcases hc with rfl | rfl <;>
+    · unfold vValidValues vValidValue vName
+      notcls
+      all_goals exact this
+
 theorem vEnum_walk (c : DiagClass) (hc : WalkCls c) (types : List Elem) (p : Path) (n enc : String) (vs : List ValidValue) :
     NotCls c (vEnum types p n enc vs) := by
   have := vEncodingType_walk c hc types
+  have hv := vValidValues_walk c hc
   rcases hc with rfl | rfl <;>
-  · unfold vEnum vValidValue vName
+  · unfold vEnum vName
     notcls
-    all_goals exact this _ _
+    all_goals first | exact this _ _ | exact hv _ _ _ _
 
 theorem vSet_walk (c : DiagClass) (hc : WalkCls c) (types : List Elem) (p : Path) (n enc : String) (cs : List Choice) :
     NotCls c (vSet types p n enc cs) := by
